@@ -9,7 +9,6 @@ rsync -a --exclude _build --exclude .git "$REPO"/ "$S"/
 ( cd "$S" && cmake -G Ninja -B _build >/dev/null 2>&1 && cmake --build _build -j16 >"$S"/build.log 2>&1 ) || { echo "BUILD FAILED"; tail -20 "$S"/build.log; rm -rf "$S"; exit 2; }
 ( cd "$S"/_build && ctest -j8 --timeout 900 >"$S"/ctest.log 2>&1 ); rc=$?
 tail -14 "$S"/ctest.log
-n=0; for t in "$S"/_build/bidib_*_tests; do c=$( cd "$S"/_build && "$t" 2>&1 | grep -c "^\[       OK \]" ); n=$((n+c)); done 2>/dev/null
 echo "ctest exit=$rc"
 rm -rf "$S"
 exit $rc
